@@ -9,7 +9,7 @@ rm -rf $M; cp -r /repo $M; rm -rf $M/.git
 ids="$@"
 if [ -z "$ids" ]; then ids=$(/venv/bin/python -c "import json;print(' '.join(c['property_id'] for c in json.load(open('/verif/MANIFEST.json'))['checks']))"); fi
 mkdir -p /tmp/hm_out/$name
-echo $ids | tr ' ' '\n' | xargs -P 16 -I{} bash -c "cd /verif && VERIF_REPO=$M ./check {} > /tmp/hm_out/$name/{}.log 2>&1; echo \$? > /tmp/hm_out/$name/{}.rc"
+echo $ids | tr ' ' '\n' | xargs -P ${HM_PAR:-16} -I{} bash -c "cd /verif && VERIF_REPO=$M ./check {} > /tmp/hm_out/$name/{}.log 2>&1; echo \$? > /tmp/hm_out/$name/{}.rc"
 for id in $ids; do
   rc=$(cat /tmp/hm_out/$name/$id.rc)
   if [ "$rc" != "0" ]; then
